@@ -182,7 +182,16 @@ func classifyLoop(h *ssa.BasicBlock, body map[*ssa.BasicBlock]bool) (kind, why s
 			if !ex.stay {
 				op = notOp(op)
 			}
-			if ph, ok := stripChange(cur).(*ssa.Phi); ok && ph.Block() == h && op == token.NEQ {
+			ph, ok := stripChange(cur).(*ssa.Phi)
+			if !ok {
+				// the test may be on a child of the cursor: for c.next != nil { c = c.next }
+				for _, in := range h.Instrs {
+					if cand, isPhi := in.(*ssa.Phi); isPhi && childStepOf(cur, cand) {
+						ph, ok = cand, true
+					}
+				}
+			}
+			if ok && ph.Block() == h && op == token.NEQ {
 				all := true
 				for i, e := range ph.Edges {
 					if !body[h.Preds[i]] {
